@@ -42,7 +42,7 @@ LE_PROCS = ['gatt_read', 'gatt_long_read', 'gatt_write', 'gatt_discover_services
             'gatt_notify_then_read', 'remote_features', 'update_parameters_l2cap', 'cis_create', 'cis_disconnect']
 CLASSIC_PROCS = ['classic_connect_pending', 'classic_remote_features', 'classic_remote_name', 'classic_connect', 'classic_disconnect', 'ertm_transfer', 'rfcomm_start', 'rfcomm_open_dlc', 'rfcomm_transfer', 'sdp_query', 'avdtp_discover',
                  'sco_setup', 'sco_disconnect', 'rfcomm_shutdown_drain']
-FAULTS = ['local_disconnect', 'remote_disconnect', 'link_loss_both', 'transport_loss_initiator', 'transport_loss_responder']
+FAULTS = ['local_disconnect', 'remote_disconnect', 'link_loss_both', 'transport_loss_initiator', 'transport_loss_responder', 'power_off_initiator', 'power_off_responder']
 
 
 def gen_teardown(rng, tier, seed):
@@ -372,7 +372,7 @@ FAMILY = {'gatt_read': 'gatt', 'gatt_long_read': 'gatt', 'gatt_write': 'gatt', '
 
 
 def _fclass(fault):
-    return 'transport-loss' if fault.startswith('transport_loss') else 'disconnection'
+    return 'transport-loss' if fault.startswith('transport_loss') else ('power-off' if fault.startswith('power_off') else 'disconnection')
 
 
 def _air(world):
@@ -437,6 +437,26 @@ def _fire(sim, cx, kind):
                 _lose_link(sim, world[i].controller, {conns[i].handle})
             else:
                 _lose_link(sim, world[i].controller, None if len(world.nodes) == 2 else set())
+    elif kind.startswith('power_off'):
+        # Device.power_off(): the host state is flushed (Host.flush) while the transport stays up; the controller is not told,
+        # so it is not consulted afterwards, and the peers' links to this node time out
+        side = ini if kind == 'power_off_initiator' else 1 - ini
+        nd = world[side]
+        t = sim.loop.create_task(nd.device.power_off())
+        cx.extra_tasks.append(('power_off', t))
+
+        def off(_t, nd=nd):  # a device that is off hears nothing more from its controller
+            nd.h2c.closed = True
+            nd.c2h.closed = True
+        t.add_done_callback(off)
+        unreachable.add(side)
+        lost_addrs = {str(nd.controller.public_address), str(nd.controller.random_address)}
+        for k, other in enumerate(world.nodes):
+            if k == side:
+                continue
+            oc = other.controller
+            hs = {c.handle for c in list(oc.le_connections.values()) + list(oc.classic_connections.values()) if str(c.peer_address) in lost_addrs}
+            _lose_link(sim, oc, hs)
     else:
         side = ini if kind == 'transport_loss_initiator' else 1 - ini
         nd = world[side]
